@@ -70,18 +70,26 @@ func checkC11(r *core.Run) {
 	if bc == nil {
 		return
 	}
-	// the queue field: the channel field of AsyncWorker written by BranchCommit
+	// the queue field: the channel field of AsyncWorker that BranchCommit (or a helper of the package it calls)
+	// sends on
 	var queue *types.Var
-	ast.Inspect(bc.Decl.Body, func(n ast.Node) bool {
-		if s, ok := n.(*ast.SendStmt); ok {
-			if sel, ok := ast.Unparen(s.Chan).(*ast.SelectorExpr); ok {
-				if v, ok := bc.Pkg.TypesInfo.Uses[sel.Sel].(*types.Var); ok && v.IsField() {
-					queue = v
+	for f := range w.Reach([]*core.FuncInfo{bc}, func(g *core.FuncInfo) bool { return g.Pkg != bc.Pkg }) {
+		if f.Pkg != bc.Pkg || f.Decl == nil || f.Decl.Body == nil || (f != bc && core.RecvNamed(f.Obj) != aw) {
+			continue
+		}
+		ast.Inspect(f.Decl.Body, func(n ast.Node) bool {
+			if s, ok := n.(*ast.SendStmt); ok {
+				if sel, ok := ast.Unparen(s.Chan).(*ast.SelectorExpr); ok {
+					if v, ok := f.Pkg.TypesInfo.Uses[sel.Sel].(*types.Var); ok && v.IsField() {
+						if f == bc || queue == nil {
+							queue = v
+						}
+					}
 				}
 			}
-		}
-		return true
-	})
+			return true
+		})
+	}
 	if queue == nil {
 		r.Anchor("C11.accept", nil, "send of the request on a channel field in AsyncWorker.BranchCommit")
 		return
@@ -94,79 +102,115 @@ func checkC11(r *core.Run) {
 		sel, ok := ast.Unparen(ss.Chan).(*ast.SelectorExpr)
 		return ok && info.Uses[sel.Sel] == queue
 	}
-	// ---- C11.accept
+	// ---- C11.accept: every way out of BranchCommit that answers 'committed' has put the request on the queue
+	// (the send may be in a helper; the arm of a select that was taken is known in its body)
 	{
 		info := bc.Pkg.TypesInfo
-		accepted := false
-		var giveUp []string
-		ast.Inspect(bc.Decl.Body, func(n ast.Node) bool {
-			switch x := n.(type) {
-			case *ast.SelectStmt:
-				hasSend := false
-				for _, c := range x.Body.List {
-					if cc := c.(*ast.CommClause); cc.Comm != nil && isQueueSend(info, cc.Comm) {
-						hasSend = true
+		var ctxParam types.Object
+		for _, p := range paramObjs(bc) {
+			if p.Type().String() == "context.Context" {
+				ctxParam = p
+			}
+		}
+		spec := func() *flow.Spec {
+			return &flow.Spec{W: w, Inline: 3,
+				Classify: func(pkg *packages.Package, call *ast.CallExpr, callee *types.Func) []flow.Tag {
+					if callee != nil && callee.Name() == "Done" && callee.Pkg() != nil && callee.Pkg().Path() == "context" {
+						return []flow.Tag{"ctxdone"}
 					}
+					return nil
+				},
+				StmtTags: func(pkg *packages.Package, s ast.Stmt) []flow.Tag {
+					if isQueueSend(pkg.TypesInfo, s) {
+						return []flow.Tag{"queued"}
+					}
+					return nil
+				},
+				Contradict: [][2]flow.Tag{{"arm:ctxdone", "nevercancelled"}},
+			}
+		}
+		type verdict struct {
+			unqueued []string // exits answering committed without the request queued
+			wrong    []*flow.Exit
+			sends    bool
+			res      *flow.Result
+		}
+		run := func(seed func(*flow.State)) verdict {
+			var v verdict
+			if seed != nil {
+				v.res = spec().AnalyzeSeed(bc, seed)
+			} else {
+				v.res = spec().Analyze(bc)
+			}
+			for _, ex := range v.res.Exits {
+				c := ex.ResultConst(info, 0)
+				committed := c != nil && c.Name() == "BranchStatusPhasetwoCommitted" && ex.Class == flow.ExitOK
+				if ex.St.Maybe("queued") {
+					v.sends = true
 				}
-				if !hasSend {
-					return true
-				}
-				accepted = true
-				for _, c := range x.Body.List {
-					cc := c.(*ast.CommClause)
-					if cc.Comm != nil && isQueueSend(info, cc.Comm) {
-						continue
-					}
-					// another arm: must leave with a non-success answer
-					leaves := false
-					for _, s := range cc.Body {
-						if rs, ok := s.(*ast.ReturnStmt); ok && len(rs.Results) == 2 {
-							if c := core.ConstObj(info, rs.Results[0]); c == nil || c.Name() != "BranchStatusPhasetwoCommitted" {
-								leaves = true
-							}
-						}
-					}
-					if !leaves {
-						what := "default"
-						if cc.Comm != nil {
-							what = exprOfStmt(cc.Comm)
-						}
-						giveUp = append(giveUp, what)
-					}
-				}
-				return false
-			case *ast.SendStmt:
-				if isQueueSend(info, x) {
-					accepted = true // plain blocking send
+				switch {
+				case ex.St.Has("queued") && !committed:
+					v.wrong = append(v.wrong, ex)
+				case !ex.St.Has("queued") && ex.Class != flow.ExitErr && (c == nil || c.Name() == "BranchStatusPhasetwoCommitted"):
+					v.unqueued = append(v.unqueued, w.Pos(ex.Pos))
 				}
 			}
-			return true
-		})
+			return v
+		}
+		v := run(nil)
 		r.Sites++
 		key := core.ShortKey(bc.Obj) + " : committed only after the request is queued"
-		if !accepted {
+		switch {
+		case !v.sends:
 			r.Bad("C11.accept", key, w.Pos(bc.Decl.Pos()), "no send on the commit queue found")
-		} else if len(giveUp) == 0 {
+		case len(v.unqueued) == 0:
 			r.OK("C11.accept", key, w.Pos(bc.Decl.Pos()), "every path to the committed answer has queued the request")
-		} else {
+		default:
+			// the only way past the send may be an arm waiting for the caller's context, and no caller's context ends
 			var trail []string
-			never := true
-			for _, g := range giveUp {
-				if !strings.HasSuffix(g, "ctx.Done()") {
+			never := ctxParam != nil
+			sawDone := false
+			for _, cp := range v.res.Calls {
+				if !inSet("ctxdone", cp.Tags...) {
+					continue
+				}
+				sawDone = true
+				sel, ok := ast.Unparen(cp.Call.Fun).(*ast.SelectorExpr)
+				if !ok || ctxParam == nil || originVia(bc, cp.Fn, sel.X, 4) != "param:"+ctxParam.Name() {
 					never = false
-					trail = append(trail, "arm '"+g+"' does not depend on the caller's context")
+					trail = append(trail, "arm '"+core.ExprString(cp.Call)+"' does not wait for the caller's context")
 				}
 			}
-			never = never && ctxNeverCancelled(w, bc, 4, &trail)
-			r.Check(never, "C11.accept", key, w.Pos(bc.Decl.Pos()), "the give-up arm ("+strings.Join(giveUp, ",")+") falls through to 'committed', but every caller (bound 4) passes a context derived from context.Background(): the arm cannot fire",
-				"the arm "+strings.Join(giveUp, ",")+" answers 'committed' without queueing the request, and a caller can pass a cancellable context ("+strings.Join(trail, "; ")+"): the branch's undo log would never be deleted")
+			never = never && sawDone && ctxNeverCancelled(w, bc, 4, &trail)
+			if never {
+				v2 := run(func(st *flow.State) {
+					st.Must["nevercancelled"] = true
+					st.May["nevercancelled"] = true
+				})
+				if len(v2.unqueued) > 0 {
+					never = false
+					trail = append(trail, "a path that does not wait for the context answers 'committed' at "+strings.Join(v2.unqueued, ","))
+				}
+			}
+			r.Check(never, "C11.accept", key, w.Pos(bc.Decl.Pos()), "the give-up arm (<-ctx.Done()) falls through to 'committed', but every caller (bound 4) passes a context derived from context.Background(): the arm cannot fire",
+				"a path answers 'committed' without queueing the request (exit at "+strings.Join(v.unqueued, ",")+"), and not only by an arm that cannot fire ("+strings.Join(trail, "; ")+"): the branch's undo log would never be deleted")
 		}
-		// the committed constant is the only status returned
-		res := (&flow.Spec{W: w}).Analyze(bc)
-		for _, ex := range res.Exits {
+		// the committed constant is the only status returned once the request is queued
+		for _, ex := range v.res.Exits {
 			r.Sites++
+			bad := false
+			for _, wx := range v.wrong {
+				if wx == ex {
+					bad = true
+				}
+			}
 			c := ex.ResultConst(info, 0)
-			r.Check(c != nil && c.Name() == "BranchStatusPhasetwoCommitted" && ex.Class == flow.ExitOK, "C11.accept", core.ShortKey(bc.Obj)+" answers committed", w.Pos(ex.Pos), "accepted request answered 'committed'", "an accepted request is not answered 'committed'/nil")
+			if !ex.St.Maybe("queued") && !(c != nil && c.Name() == "BranchStatusPhasetwoCommitted" && ex.Class == flow.ExitOK) {
+				// refused before anything was queued
+				r.OK("C11.accept", core.ShortKey(bc.Obj)+" answers committed", w.Pos(ex.Pos), "request refused before it was queued")
+				continue
+			}
+			r.Check(!bad && c != nil && c.Name() == "BranchStatusPhasetwoCommitted" && ex.Class == flow.ExitOK, "C11.accept", core.ShortKey(bc.Obj)+" answers committed", w.Pos(ex.Pos), "accepted request answered 'committed'", "an accepted request is not answered 'committed'/nil")
 		}
 	}
 	// ---- C11.key, C11.requeue: the batch handler(s): functions of AsyncWorker calling BatchDeleteUndoLog
@@ -421,21 +465,27 @@ func checkC11(r *core.Run) {
 		info := f.Pkg.TypesInfo
 		ps := paramObjs(f)
 		reach := map[types.Object]bool{}
-		ast.Inspect(f.Decl.Body, func(n ast.Node) bool {
-			c, ok := n.(*ast.CallExpr)
-			if !ok || !(stdMethod(core.Callee(info, c), pSQL, "Stmt", "ExecContext") || stdMethod(core.Callee(info, c), pSQL, "Stmt", "Exec")) {
-				return true
+		// (the statement may be executed by a helper of the package that is handed the identifiers)
+		execRes := (&flow.Spec{W: w, Inline: 3, Classify: func(pkg *packages.Package, call *ast.CallExpr, callee *types.Func) []flow.Tag {
+			if stdMethod(callee, pSQL, "Stmt", "ExecContext") || stdMethod(callee, pSQL, "Stmt", "Exec") {
+				return []flow.Tag{"exec"}
 			}
-			for _, a := range c.Args {
-				o := origin(f, a, 4)
+			return nil
+		}}).Analyze(f)
+		for _, cp := range execRes.Calls {
+			if !inSet("exec", cp.Tags...) {
+				continue
+			}
+			for _, a := range cp.Call.Args {
+				o := originVia(f, cp.Fn, a, 4)
 				for _, p := range ps {
-					if strings.Contains(o, "param:"+p.Name()) {
+					if replaceToken(o, "param:"+p.Name(), "\x00") != o {
 						reach[p] = true
 					}
 				}
 			}
-			return true
-		})
+		}
+		_ = info
 		r.Sites++
 		r.Check(len(ps) >= 2 && reach[ps[0]] && reach[ps[1]], "C11.key", core.ShortKey(f.Obj)+" : xid and branch id both bound", w.Pos(f.Decl.Pos()), "both identifiers reach the statement's arguments", "the delete statement is not bound with both the xid and the branch id")
 		cols := map[string]bool{}
